@@ -9,7 +9,61 @@ VERIF = os.path.dirname(os.path.dirname(os.path.abspath(__file__)))
 
 PY = "/venv/bin/python"
 
+EX_TECH = ("TLA+ spec of the exchange (ExchangeCore/ExchangeProps/Exchange.tla) model-checked with TLC; TLC-simulated behaviours "
+           "replayed into the real Exchange; TLC trace validation (ExchangeTrace.tla) of every recorded implementation trace")
+EX_NOTE = ("Trusted: TLC; the projection Decimal->integer units (fails clause Obs_Grid when not integral); the runner that drives the "
+           "real Exchange inside a real BacktestingDispatcher. Small-scope exhaustiveness for the model; implementation coverage is "
+           "seeded-random beyond it. Price-impact constant 0 (exact arithmetic); interest periods are powers of two ticks.")
+
+
+def ex(text, ref):
+    return dict(engine="Exchange", technique=EX_TECH, text=text, note=EX_NOTE, design_ref=ref)
+
+
+DISP_TECH = ("TLA+ spec of the backtesting dispatch loop (BtDispatcherCore/BtDispatcher.tla: multiplexer, heap, task pool, loop "
+             "suspension points) model-checked with TLC over configuration families; histories recorded from the real dispatcher "
+             "judged by TLC (DispTrace.tla property predicates + BtDispatcherTrace.tla behaviour inclusion with inferred loop steps)")
+DISP_NOTE = ("Trusted: TLC; the harness' handler programs and logging. Handler suspension is asyncio.sleep(0) or futures released in "
+             "seeded random order. Jobs never push events and handlers schedule at now() or later (outside the statements' quantifiers, "
+             "DESIGN.md §7 O1/O2).")
+
+
+def disp(text, ref):
+    return dict(engine="BtDispatcher", technique=DISP_TECH, text=text, note=DISP_NOTE, design_ref=ref)
+
+
 CLAIMED = {
+    "C01": ex("Conservation is an invariant of the model (exhaustive over requests/cancels/loans/bars within small bounds, several "
+              "fee/liquidity/lending configs) and is evaluated by TLC on every state of every recorded implementation trace "
+              "(totals vs initial + fills - fees - paid interest, from the public API only).", "DESIGN.md §5 C01"),
+    "C02": ex("Non-negativity, total = available + hold - borrowed and borrowed = open principal are model invariants and are "
+              "evaluated on every implementation state (margin lending, competing orders, price gaps).", "DESIGN.md §5 C02"),
+    "C03": disp("No-look-ahead is an invariant of the dispatcher model with an abstract exchange (every subscription order of bar / "
+                "derived sources, max_concurrent 1..4, every interleaving of suspended handlers) and is evaluated on histories of "
+                "the real dispatcher; the regression scenario of the fixed defect D1 stays in the corpus.", "DESIGN.md §5 C03"),
+    "C04": ex("Per-fill price/trigger predicates written from the statement are action properties of the model (all weak orderings "
+              "of o/h/l/c vs limit/stop on a small grid, partial fills from non-integral liquidity) and are evaluated on every "
+              "fill of every implementation trace; completeness with unlimited liquidity likewise.", "DESIGN.md §5 C04"),
+    "C05": ex("Lifecycle monotonicity, closure rules, listings (all filters cross-checked after every step, open list under "
+              "re-indexing every 2..50 traversals) and the order-event stream are model properties and are judged on "
+              "implementation traces.", "DESIGN.md §5 C05"),
+    "C06": ex("hold = sum of the spec-side remaining reservations of open orders, no-open-no-hold, hold <= balance, and the "
+              "acceptance boundary (driver aims at exactly-enough / one-unit-short) on model and implementation states.",
+              "DESIGN.md §5 C06"),
+    "C07": ex("Rejected_Unchanged compares the full projection before/after every raising call, in the model for every failure "
+              "point and on every rejected call of the implementation traces.", "DESIGN.md §5 C07"),
+    "C08": ex("Per-bar liquidity cap (rational), fill-or-kill of market/stop orders and the precision grid (projection fails on a "
+              "non-integral unit count; scale lifting over precisions) on model and implementation.", "DESIGN.md §5 C08"),
+    "C09": ex("Closed-form total fee (ceil(max(pct*quote, min))) against the code's incremental rule after every fill, any "
+              "number of partial fills, on model and implementation.", "DESIGN.md §5 C09"),
+    "C10": ex("A granted loan (explicit or auto-borrow) implies the independently recomputed margin requirement in the post-state; "
+              "no lending => no loans; zero-equity accounts included.", "DESIGN.md §5 C10"),
+    "C11": ex("Interest formula (outstanding interest of every open loan compared at every step), repayment debit, closure causes "
+              "and auto-repay order (largest first) on model and implementation.", "DESIGN.md §5 C11"),
+    "C12": disp("Global time order, exactly-once, stage order, clock = event time and clock monotonicity are invariants of the "
+                "dispatcher model and predicates judged by TLC on histories of the real dispatcher.", "DESIGN.md §5 C12"),
+    "C13": disp("Every multiset of <= 3 job times around two events in every insertion order (heap modelled as heapq's array) plus "
+                "random configurations in the model; the same predicates on real histories.", "DESIGN.md §5 C13"),
     "C20": dict(
         engine="TokenBucket",
         technique="TLA+ spec (TokenBucket.tla) model-checked with TLC; every terminal TLC behaviour replayed into the real "
